@@ -655,9 +655,9 @@ func (h *hsRunner) serveProxy(i int, sc *SimConn) {
 		return
 	case "raw":
 		c.Write(p.Raw)
-		// keep the connection open for a moment, then close: a reply that never ends must not hang the client forever
-		time.Sleep(time.Hour)
-		c.Close()
+		if len(p.Raw)%2 == 0 {
+			c.Close() // half of the replies are followed by EOF, the others by silence (the handshake time-out must end those)
+		}
 		return
 	case "close":
 		c.Close()
